@@ -4,9 +4,9 @@ Converge: model for C01 (replicas converge).
 Code modelled:
 * http/service.go write endpoints: `execute`, `queuedExecute`, `handleRequest` call the SQL
   rewriter (`sql.Process`) on the request's statements before handing them to the
-  store/proxy; `handleLoad`'s SQL-text branch builds one execute request from the body
-  and hands it over WITHOUT calling the rewriter (table `rewrites`, tied to the source by
-  the regenerated facts in Gen/StoreOrder.lean).
+  store/proxy; so does `handleLoad`'s SQL-text branch since the `fix:` commit 706f645
+  (before it, the body was handed over as written — the C01 oracle found the divergence).
+  Table `rewrites`, tied to the source by the regenerated facts in Gen/StoreOrder.lean.
 * command/sql/processor.go `Process` at the abstraction "every non-deterministic call is
   replaced by the value it has at the leader, at rewrite time" (the rewriter itself is
   modelled and proved in C14 by agent a5; here it is the assumed law `Sem.rewritten_indep`,
@@ -44,7 +44,7 @@ def rewrites : Endpoint → Bool
   | .execute => true
   | .queued => true
   | .request => true
-  | .loadText => false
+  | .loadText => true
 
 /-- what reaches the log for a request received at `le` through `ep` -/
 def logged {D S : Type} (M : Sem D S) (ep : Endpoint) (le : Env) (ss : List S) : List S :=
